@@ -101,6 +101,8 @@ def real_main():
     for job in req["jobs"]:
         case = cases[job["idx"]]
         c = ctxm.RealCtx(job["inputs"])
+        if job.get("witness"):
+            c.known = {}          # a known-finding witness is replayed with its region *not* excluded: it must still fail
         r = dict(idx=job["idx"])
         pendulum.set_locale("en")
         pendulum.week_starts_at(pendulum.MONDAY)
@@ -291,7 +293,7 @@ def main(argv=None):
             w = e["witness"]
             names = [c["name"] for c in cases]
             if w["case"] in names:
-                kjobs.append(dict(idx=names.index(w["case"]), inputs=w["inputs"]))
+                kjobs.append(dict(idx=names.index(w["case"]), inputs=w["inputs"], witness=True))
                 kmeta.append(e)
     if kjobs:
         try:
@@ -300,6 +302,9 @@ def main(argv=None):
                 failed = [lab for lab, ok in rr.get("claims", []) if not ok]
                 if rr["status"] == "ok" and failed:
                     known_lines.append(f"KNOWN-FINDING: property={pid} {e['id']}: {e['what']}")
+                else:
+                    known_lines.append(f"NOTE: known finding {e['id']} no longer reproduces on its recorded witness "
+                                       f"(status={rr['status']}); the property is still checked in full outside and inside its region")
         except Exception as ex:      # noqa: BLE001
             problems.append(f"known-finding witness run failed: {ex}")
 
